@@ -55,6 +55,42 @@ template<class G> void run_alg(const std::string &alg, size_t k, const std::vect
     print_cycles(out, c, cycles);
     out << " SCHED " << st.pos << " " << st.n_split << " " << st.n_fork << " " << st.n_seq << " " << st.n_rfirst << " " << st.n_chunks
         << " " << st.n_for << " " << st.n_reduce << " " << st.n_push << " " << (st.perm_applied ? 1 : 0);
+    if (oracles) {
+        // the same call the way another caller may make it (as in c01.cpp): weights in an EXTERNAL associative property map (the interior edge_weight
+        // property holds decoys in reversed order), cycles through a POSITIONAL output iterator into pre-sized storage, same schedule.  The same
+        // schedule and the same weights give the same run: returned value and number of cycles must agree, the written cycles must be made of the
+        // caller's edges and weigh the returned value under the caller's map.
+        typedef std::map<Edge, W> Store;
+        Store store; W mx = W();
+        for (auto &e : c.edges) { store[e] = boost::get(wm, e); if (mx < store[e]) mx = store[e]; }
+        // (the approximate entry points cannot be instantiated with a map type other than the graph's interior one -- the exact algorithm they
+        //  delegate to is declared on the caller's map type but called with the spanner's interior map -- so for them only the iterator differs)
+        if (!approx) for (auto &e : c.edges) boost::put(wm, e, mx + 1 - store[e]);
+        boost::associative_property_map<Store> xm(store);
+        std::vector<std::list<Edge>> slots(cycles.size() + 2);
+        W ret2 = W();
+        verif_sched::reset(bits, perm, false);
+        try {
+            if (alg == "signed_tbb") ret2 = parmcb::mcb_sva_signed_tbb(c.g, xm, slots.begin());
+            else if (alg == "fvs_tbb") ret2 = parmcb::mcb_sva_fvs_trees_tbb(c.g, xm, slots.begin());
+            else if (alg == "iso_tbb") ret2 = parmcb::mcb_sva_iso_trees_tbb(c.g, xm, slots.begin());
+            else if (alg == "approx_signed_tbb") ret2 = parmcb::approx_mcb_sva_signed_tbb(c.g, wm, k, slots.begin());
+            else if (alg == "approx_fvs_tbb") ret2 = parmcb::approx_mcb_sva_fvs_trees_tbb(c.g, wm, k, slots.begin());
+            else ret2 = parmcb::approx_mcb_sva_iso_trees_tbb(c.g, wm, k, slots.begin());
+        } catch (...) { for (auto &e : c.edges) boost::put(wm, e, store[e]); throw; }
+        for (auto &e : c.edges) boost::put(wm, e, store[e]);
+        const std::string what = "external weight map + positional output iterator: ";
+        size_t written = 0; W tot = W();
+        for (size_t i = 0; i < slots.size(); i++) {
+            if (slots[i].empty()) continue;
+            if (i != written) throw std::runtime_error(what + "slot " + std::to_string(i) + " written, slot " + std::to_string(written) + " left empty");
+            written++;
+            for (auto &e : slots[i]) { if (c.id(e) == (size_t) -1) throw std::runtime_error(what + "a returned edge is not an edge of the caller's graph"); tot = tot + store[e]; }
+        }
+        if (written != cycles.size()) throw std::runtime_error(what + std::to_string(written) + " cycles written, " + std::to_string(cycles.size()) + " through back_inserter with the interior map");
+        if (!(ret2 == ret)) throw std::runtime_error(what + "returned value " + exact_weight(ret2, scale) + " differs from " + exact_weight(ret, scale) + " (interior map, back_inserter, same schedule)");
+        if (!(tot == ret2)) throw std::runtime_error(what + "the written cycles weigh " + exact_weight(tot, scale) + " under the caller's map, returned " + exact_weight(ret2, scale));
+    }
     if (approx) {      // the sequential counterpart on the same graph (no parallel construct is reached)
         verif_sched::reset(std::vector<bool>());
         if (alg == "approx_signed_tbb") seqret = parmcb::approx_mcb_sva_signed(c.g, wm, k, std::back_inserter(seqcycles));
